@@ -257,6 +257,9 @@ func (ft *fnTrans) applyContract(x ssa.Value, fc *FuncContract, callee *ssa.Func
 		newT := vc.havoc(h, it.comp)
 		ft.frameAssume(it.comp, oldT, newT, topPre, items)
 	}
+	for c := range done {
+		vc.assumeClosed(*h, c)
+	}
 	// results
 	var results []string
 	if fc.Pure {
@@ -524,21 +527,23 @@ func (ft *fnTrans) appendCall(x ssa.Value, c *ssa.CallCommon, h *Heap, reach str
 	if cnt, ok := ft.staticSliceLen(c.Args[1]); ok && cnt <= 8 {
 		inPlace = oldArr
 		fa := vc.fresh("append.arr", fmt.Sprintf("(Array Int %s)", es))
-		vc.assume(fmt.Sprintf("(forall ((j Int)) (! (=> (and (<= 0 j) (< j (s-len %s))) (= (select %s j) (select %s (+ (s-off %s) j)))) :pattern ((select %s j))))", s, fa, oldArr, s, fa))
+		vc.assume(fmt.Sprintf("(forall ((j Int)) (! (=> (and (<= 0 j) (< j (s-len %s))) (= (select %s j) (select %s (sidx (s-off %s) j)))) :pattern ((select %s j))))", s, fa, oldArr, s, fa))
+		vc.assume(fmt.Sprintf("(forall ((j Int)) (! (=> (>= j (s-len %s)) (= (select %s j) %s)) :pattern ((select %s j))))", s, fa, vc.sorts.zero(sl.Elem(), vc.lits), fa))
 		freshArr = fa
 		for j := int64(0); j < cnt; j++ {
-			ev := sel(srcArr, fmt.Sprintf("(+ (s-off %s) %d)", t, j))
-			inPlace = sto(inPlace, fmt.Sprintf("(+ (s-off %s) (s-len %s) %d)", s, s, j), ev)
+			ev := sel(srcArr, fmt.Sprintf("(sidx (s-off %s) %d)", t, j))
+			inPlace = sto(inPlace, fmt.Sprintf("(sidx (s-off %s) (+ (s-len %s) %d))", s, s, j), ev)
 			freshArr = sto(freshArr, fmt.Sprintf("(+ (s-len %s) %d)", s, j), ev)
 		}
 	} else {
 		ip := vc.fresh("append.inplace", fmt.Sprintf("(Array Int %s)", es))
-		vc.assume(fmt.Sprintf("(forall ((j Int)) (! (= (select %s j) (ite (and (<= (+ (s-off %s) (s-len %s)) j) (< j (+ (s-off %s) %s))) (select %s (+ (s-off %s) (- j (+ (s-off %s) (s-len %s))))) (select %s j))) :pattern ((select %s j))))",
+		vc.assume(fmt.Sprintf("(forall ((j Int)) (! (= (select %s j) (ite (and (<= (+ (s-off %s) (s-len %s)) j) (< j (+ (s-off %s) %s))) (select %s (sidx (s-off %s) (- j (+ (s-off %s) (s-len %s))))) (select %s j))) :pattern ((select %s j))))",
 			ip, s, s, s, n, srcArr, t, s, s, oldArr, ip))
 		inPlace = ip
 		fa := vc.fresh("append.arr", fmt.Sprintf("(Array Int %s)", es))
-		vc.assume(fmt.Sprintf("(forall ((j Int)) (! (=> (and (<= 0 j) (< j %s)) (= (select %s j) (ite (< j (s-len %s)) (select %s (+ (s-off %s) j)) (select %s (+ (s-off %s) (- j (s-len %s))))))) :pattern ((select %s j))))",
+		vc.assume(fmt.Sprintf("(forall ((j Int)) (! (=> (and (<= 0 j) (< j %s)) (= (select %s j) (ite (< j (s-len %s)) (select %s (sidx (s-off %s) j)) (select %s (sidx (s-off %s) (- j (s-len %s))))))) :pattern ((select %s j))))",
 			n, fa, s, oldArr, s, srcArr, t, s, fa))
+		vc.assume(fmt.Sprintf("(forall ((j Int)) (! (=> (>= j %s) (= (select %s j) %s)) :pattern ((select %s j))))", n, fa, vc.sorts.zero(sl.Elem(), vc.lits), fa))
 		freshArr = fa
 	}
 	// in-place writes hit the caller-visible backing array: frame obligation unless that array is fresh
